@@ -92,6 +92,9 @@ def cases(thorough):
                 for dt in (dts if thorough else ["f8", "f4", "i8"]):
                     for sh in ["3", "2x3"]:
                         yield {"block": "nary", "fn": name, "kind": kind, "u1": u1, "u2": u2, "dt": dt, "shape": sh}
+                    # a 0-d Array as the operand that carries the unit, against three values
+                    if dt == "f8" and not name.startswith(("concatenate", "stack", "hstack", "append", "where")):
+                        yield {"block": "nary", "fn": name, "kind": kind, "u1": u1, "u2": u2, "dt": dt, "shape": "3", "a0d": True}
     # sequences of calls on persistent Arrays: conversions, out= targets and in-place updates interleaved
     import itertools
 
@@ -193,6 +196,8 @@ def run_case(acc, idx, c):
         name, kind = c["fn"], c["kind"]
         v1 = _arr.values_for(shape, dt, 0, 0)
         v2 = _arr.values_for(shape, np.float64, 0, 1)
+        if c.get("a0d"):
+            v1 = np.array(v1.reshape(-1)[1])
         a = A_(v1, unit=c["u1"])
         s1, d1, t1 = _arr.uinfo(c["u1"])
         s2, d2, t2 = _arr.uinfo(c["u2"])
